@@ -48,14 +48,17 @@ def make_source(seed: int, variant: int) -> tuple[str, list]:
 
 def _shard(args):
     shard_id, specs = args
-    from harness import edits, histories, c04_tokens
+    from harness import edits, histories, c04_tokens, c04_history
     rec = edits.Recorder()
     tt = c04_tokens.TokTables()
     hooks = c04_tokens.make_hooks(tt)
     traces, scripts = [], {}
     for tid, seed, variant, nsteps in specs:
         src, progs = make_source(seed, variant)
-        tr = histories.run_history(rec, tid, seed, src, nsteps, hooks=hooks)
+        # 1 of 3 histories by the shared driver as it is, 2 of 3 with targets biased to statement lists / multi-line
+        # containers (harness/c04_history.py)
+        run = histories.run_history if tid % 3 == 0 else c04_history.run_history
+        tr = run(rec, tid, seed, src, nsteps, hooks=hooks)
         scripts[tid] = {'driver': 'c04_history', 'progs': progs, 'variant': variant, 'seed': seed, 'nsteps': nsteps,
                         'script': tr.pop('script')}
         traces.append(tr)
@@ -295,9 +298,9 @@ def generated_cases(ctx, nproc=14):
     ctx.models.append({'module': 'TokenGen', 'cfg': cfg, 'kind': 'case-table', 'wall_s': r['wall_s']})
     with open(out) as f:
         rows = json.load(f)
-    if not ctx.quick:  # deterministic sample of the NStmt = 3 table
-        rng = random.Random(ctx.seed + 77)
-        rows = rng.sample(rows, min(len(rows), 24000))
+    ctx.extra['case_table_rows'] = len(rows)
+    rng = random.Random(ctx.seed + 77)  # seed-dependent sample of the table (quick: NStmt = 2, thorough: NStmt = 3)
+    rows = rng.sample(rows, min(len(rows), 3000 if ctx.quick else 24000))
     ctx.extra['generated_cases'] = len(rows)
     numbered = list(enumerate(rows, 1))
     nshards = max(1, min(nproc, len(numbered) // 200 or 1), len(numbered) // 1500)
